@@ -7,7 +7,7 @@
    of [cfg] are the places where the pinned and the current tree differ;
    [fixed_cfg] is the current tree (validated behaviourally on every run by the
    scenario correspondence), [pinned_cfg] the tree before the fix commits. *)
-From G Require Import Base Sys SysProofs SysProps.
+From G Require Import Base Sys SysProofs SysProps Addr AddrProofs.
 Open Scope nat_scope.
 
 Theorem C17_ready_bound : forall cfg s, ready_on_error cfg = false -> reachable cfg s ->
@@ -39,6 +39,27 @@ Theorem C17_ready_listening_unconditional : forall cfg s,
   step cfg s EConnect <> None /\ in_loop (run s) = true /\ lst s = Listening.
 Proof. exact c07_accepting_despite_accept_errors. Qed.
 Print Assumptions C17_ready_listening_unconditional.
+
+(* the address given to Run (Addr.v: validateAddrPort, with the library calls it makes as
+   oracle bits): never a panic; what goes on to net.Listen is the host and port the caller
+   wrote, split at the last colon, unchanged or with the host put into one pair of brackets -
+   brackets are never taken away and the host is never rewritten; a host that starts with a
+   bracket is passed on as written, and only if the library accepts what is between the brackets *)
+Theorem C17_addr_total : forall o a, validate_addr o a <> Panic.
+Proof. exact validate_total. Qed.
+Print Assumptions C17_addr_total.
+
+Theorem C17_addr_shape : forall o a out, validate_addr o a = Ok out ->
+  exists h p, a = h ++ colon :: p /\ p <> [] /\ has_byte colon p = false /\
+              (out = h ++ colon :: p \/ (out = lbr :: h ++ rbr :: colon :: p /\ first_is lbr h = false)).
+Proof. exact validate_shape. Qed.
+Print Assumptions C17_addr_shape.
+
+Theorem C17_addr_bracketed : forall o a h p out, split_last a = Some (h, p) -> first_is lbr h = true ->
+  validate_addr o a = Ok out ->
+  has_byte rbr h = true /\ o_trim_ip o = true /\ out = h ++ colon :: p.
+Proof. exact validate_bracketed. Qed.
+Print Assumptions C17_addr_bracketed.
 
 Theorem C17_pinned_refuted : exists s, run_labels pinned_cfg init [ECallRun true false; LRun] = Some s /\ run s = RRet true /\ ready s = true.
 Proof. exact c17_pinned_refuted. Qed.
